@@ -8,7 +8,8 @@ ID = "C01"
 RULE = (
     "Hypothesis builds typed programs of the documented subset (bool/Qint/Qfixed/Qchar/Tuple/Qlist/Qmatrix arguments and returns; "
     "boolean, comparison, arithmetic, bitwise, shift operators with mixed widths; if-expressions, if/else, for loops, aug-assignment, "
-    "tuple unpacking, builtins, list-constant lookups) and, with low weight, programs wrapping one construct adjacent to the subset "
+    "tuple unpacking, tuple-literal multi-assignment whose right-hand sides read the targets (a, b = b, a + b), builtins, list-constant lookups, "
+    "argument and local names that coincide with or extend names the library generates (anc_0, q0, TRUE, _temptup, _ret0, _retval)) and, with low weight, programs wrapping one construct adjacent to the subset "
     "(negative space); each is translated under defaultOptimizer or fastOptimizer and its expression list is evaluated on ALL 2^n "
     "argument assignments (n<=12) against CPython executing the same source over instrumented fixed-width numbers (exact / wrap / "
     "undetermined regimes). Non-trivial = accepted program with >=2 operators or a statement other than return, at least one row "
